@@ -117,6 +117,36 @@ def dispatch(sim: Any, op: dict) -> Any:
         except Exception as e:  # any other failure is reported as such
             return {"zids": out, "error": str(e), "error_type": type(e).__name__}
         return {"zids": out, "error": None}
+    if kind == "alloc_chain":
+        # one long allocation history on one date; before the p-th allocation (p in
+        # positions) the value zorg persisted for that date is recorded, so that other
+        # runs can start from states zorg itself produced (never from made-up ones)
+        import json as _json
+
+        from zorg.storage.sql._zid_manager import ZIDManager
+
+        d = _real_dt.date.fromordinal(op["date"])
+        key = d.strftime("%y%m%d")
+        path = zdir / ".zorg" / "next_ids.json"
+        positions = set(op["positions"])
+        out = []
+        snaps = {}
+        res = {"error": None}
+        try:
+            while len(out) < op["limit"]:
+                if len(out) in positions:
+                    snaps[str(len(out))] = _json.loads(path.read_text()).get(key) if path.exists() else None
+                if len(out) % 997 == 0:
+                    mgr = ZIDManager(zdir)
+                out.append(mgr.get_next(d))
+        except RuntimeError as e:
+            res = {"error": str(e), "error_type": "RuntimeError"}
+        except Exception as e:
+            res = {"error": str(e), "error_type": type(e).__name__}
+        if len(out) in positions and str(len(out)) not in snaps:
+            snaps[str(len(out))] = _json.loads(path.read_text()).get(key) if path.exists() else None
+        res.update({"zids": out, "snapshots": snaps})
+        return res
     if kind == "compile":
         from zorg.service.compiler import walk_zorg_page
 
